@@ -69,10 +69,22 @@ structure TypeDecl where
   isNode : Bool
   /-- `copy()` returns early on a nil receiver -/
   nilSafe : Bool
+  /-- the functions a `Copy` of a value of this type passes through (indices into `Tables.helpers`) -/
+  helpers : List Nat
 deriving Repr
 
 def TypeDecl.dflt : TypeDecl :=
-  { name := "?", shape := .obj, fields := [], elemMode := .unknown, copyCase := false, isNode := false, nilSafe := false }
+  { name := "?", shape := .obj, fields := [], elemMode := .unknown, copyCase := false, isNode := false, nilSafe := false,
+    helpers := [] }
+
+/-- what the extractor found by looking at every `return` of a function on a copy path -/
+structure Helper where
+  name : String
+  /-- every return yields nil / a zero value, a fresh object, or a further helper's result -/
+  allocates : Bool
+  /-- some return (outside an `if arg == nil` guard) yields the argument itself -/
+  returnsArg : Bool
+deriving Repr
 instance : Inhabited TypeDecl := ⟨TypeDecl.dflt⟩
 
 /-- what one statement of a cursor constructor adds to `Cursor.Branches` -/
@@ -103,6 +115,8 @@ structure Tables where
   scalarLeaves : List String
   /-- index of "*cypher.MapItem" -/
   mapItemTy : Nat
+  /-- the functions on copy paths -/
+  helpers : List Helper := []
 
 def Tables.decl (T : Tables) (ty : Nat) : TypeDecl := T.types.getD ty TypeDecl.dflt
 def Tables.field (T : Tables) (ty i : Nat) : Field := (T.decl ty).fields.getD i Field.dflt
@@ -173,14 +187,24 @@ mutual
 def Tables.handles (T : Tables) (sh : Shape) (ty : Nat) : Bool :=
   (T.decl ty).copyCase && (T.decl ty).shape == sh
 
+/-- every helper on the path allocates and never returns its argument -/
+def Tables.declAllocs (T : Tables) (d : TypeDecl) : Bool :=
+  d.helpers.all (fun h => match T.helpers[h]? with
+    | some x => x.allocates && !x.returnsArg
+    | none => false)
+
+/-- a `Copy` of a node of type `ty` comes back as a new object -/
+def Tables.allocs (T : Tables) (ty : Nat) : Bool := T.declAllocs (T.decl ty)
+
 /-- `cypher.Copy(v)` with `n` the next free address. A node whose type has no case in the type switch makes the
-real `Copy` panic; the model returns it unchanged and `copyPanics` reports it. -/
+real `Copy` panic; the model returns it unchanged and `copyPanics` reports it. A node whose copy path contains a
+helper that may hand back its argument is — worst case — returned as it is. -/
 def copy (T : Tables) : Val → Nat → Val × Nat
   | .scalar tn s, n => (.scalar tn s, n)
   | .nil, n => (.nil, n)
   | .tnil ty, n => (.tnil ty, n)
   | .node sh a ty keys kids, n =>
-      if T.handles sh ty then
+      if T.handles sh ty && T.allocs ty then
         let r := copyK T sh ty 0 kids (n + 1)
         (.node sh n ty keys r.1, r.2)
       else (.node sh a ty keys kids, n)
@@ -219,9 +243,10 @@ def TypeDecl.copyOK (d : TypeDecl) : Bool :=
   d.fields.all Field.copyOK && (d.shape == .obj || d.elemMode == .deep)
 
 /-- Side condition of `copy_equal_and_fresh`: every type that `Copy` handles copies every field deeply, or
-shallowly where sharing is unobservable (value / opaque / frozen scalar slice). -/
+shallowly where sharing is unobservable (value / opaque / frozen scalar slice), and "deeply" really means a new
+object: every helper on the type's copy path allocates and never returns its argument. -/
 def schemaCopyOK (T : Tables) : Bool :=
-  T.types.all (fun d => !d.copyCase || d.copyOK)
+  T.types.all (fun d => !d.copyCase || (d.copyOK && T.declAllocs d))
 
 /-- every node type has a case in `Copy`, and the static type of every deep pointer/slice/map field too:
 `Copy` cannot reach its `default: panic` on a well-typed value -/
